@@ -17,7 +17,7 @@ package uses these methods on); none changes which object is mutated or aliased:
   np.transpose(X), X.transpose() -> X.T
   np.multiply/add/subtract/divide/power(a, b) -> a * b, a + b, a - b, a / b, a ** b
   a > b, a >= b                  -> b < a, b <= a            (single comparisons; operand evaluation has no side effects here)
-  0 == x, np.inf != x            -> x == 0, x != np.inf
+  0 == x, np.inf != x            -> x == 0, x != np.inf;  b == a -> a == b (operands of == / != in text order)
   dtype='float' / astype('int')  -> dtype=float / astype(int);  X.astype(T) -> np.array(X, dtype=T)   (both copy)
   np.logical_not(a == b)         -> a != b (and vice versa)
   ~m, a & b, a * b, a | b, m &= c -> np.logical_not / logical_and / logical_or when the operands evidently hold booleans
@@ -274,6 +274,8 @@ class _Spell(ast.NodeTransformer):
                 return ast.copy_location(ast.Compare(left=r, ops=[ast.LtE()], comparators=[l]), n)
             if isinstance(op, (ast.Eq, ast.NotEq)) and _is_literal(l) and not _is_literal(r):
                 return ast.copy_location(ast.Compare(left=r, ops=[op], comparators=[l]), n)
+            if isinstance(op, (ast.Eq, ast.NotEq)) and not _is_literal(l) and not _is_literal(r) and ast.unparse(r) < ast.unparse(l):
+                return ast.copy_location(ast.Compare(left=r, ops=[op], comparators=[l]), n)      # symmetric: operands in text order
         return n
 
     def visit_keyword(self, n):
